@@ -17,19 +17,59 @@ import (
 // C18: the compressing reader yields one valid frame for any read pattern.
 
 type c18Case struct {
-	Opts   wopts    `json:"opts"`
+	Opts     wopts    `json:"opts"`
+	Data     gen.Data `json:"data"`
+	Sizes    []int    `json:"sizes"` // cyclic Read buffer sizes (0 allowed)
+	Src      []int    `json:"src,omitempty"`
+	EOFW     bool     `json:"eofwith,omitempty"`
+	FailAt   int      `json:"failat,omitempty"`
+	FailKind int      `json:"failkind,omitempty"` // 0 plain error, 1 wraps io.EOF, 2 wraps io.ErrUnexpectedEOF
+	Prev     *c18Prev `json:"prev,omitempty"`     // an earlier stream read (partly) through the same object before Reset
+}
+
+// c18Prev: the object's earlier life: a stream that is read for Calls calls (its source may fail), then Reset.
+type c18Prev struct {
 	Data   gen.Data `json:"data"`
-	Sizes  []int    `json:"sizes"` // cyclic Read buffer sizes (0 allowed)
-	Src    []int    `json:"src,omitempty"`
-	EOFW   bool     `json:"eofwith,omitempty"`
+	Sizes  []int    `json:"sizes"`
+	Calls  int      `json:"calls"`
 	FailAt int      `json:"failat,omitempty"`
+}
+
+func failErr(kind int) error {
+	switch kind {
+	case 1:
+		return inst.ErrInjectedWrapsEOF
+	case 2:
+		return inst.ErrInjectedWrapsUnexpectedEOF
+	}
+	return nil
 }
 
 func runC18(c c18Case, rec *stat.Rec) *stat.Failure {
 	data := c.Data.Build()
-	src := &inst.Source{Data: data, Chunks: c.Src, EOFWith: c.EOFW, FailAt: c.FailAt}
+	src := &inst.Source{Data: data, Chunks: c.Src, EOFWith: c.EOFW, FailAt: c.FailAt, FailWith: failErr(c.FailKind)}
 	rc := &inst.ReadCloser{Reader: src}
 	cr := lz4.NewCompressingReader(rc)
+	if c.Prev != nil {
+		// an earlier stream on the same object, abandoned (or failed) part-way, then Reset
+		psrc := &inst.Source{Data: c.Prev.Data.Build(), FailAt: c.Prev.FailAt}
+		cr = lz4.NewCompressingReader(&inst.ReadCloser{Reader: psrc})
+		pbuf := make([]byte, 1<<17)
+		for i := 0; i < c.Prev.Calls && len(c.Prev.Sizes) > 0; i++ {
+			sz := c.Prev.Sizes[i%len(c.Prev.Sizes)]
+			if sz > len(pbuf) {
+				sz = len(pbuf)
+			}
+			if _, err := cr.Read(pbuf[:sz]); err != nil {
+				break
+			}
+		}
+		cr.Reset(rc)
+		rec.Class("reuse/reset-after-an-earlier-stream")
+		if c.Prev.FailAt > 0 && psrc.Failed > 0 {
+			rec.Class("reuse/reset-after-a-source-failure")
+		}
+	}
 	opts := []lz4.Option{lz4.BlockSizeOption(blockSizes[c.Opts.BS]), lz4.BlockChecksumOption(c.Opts.BlockSum), lz4.ChecksumOption(c.Opts.ContentSum),
 		lz4.CompressionLevelOption(lz4.CompressionLevel(c.Opts.Level))}
 	if c.Opts.Size {
@@ -96,6 +136,9 @@ func runC18(c c18Case, rec *stat.Rec) *stat.Failure {
 			return stat.Failf("C18/source-error-not-passed-through/"+errClass(final), "%s: source failed at call %d, Read returned %v", desc, c.FailAt, final)
 		}
 		rec.Class("source-error-passed-through")
+		if c.FailKind != 0 {
+			rec.Class("source-error-wrapping-EOF-passed-through")
+		}
 		return nil
 	}
 	if final == nil {
@@ -181,6 +224,15 @@ func drawC18(t *rapid.T) c18Case {
 	}
 	if rapid.IntRange(0, 7).Draw(t, "fail?") == 0 {
 		c.FailAt = rapid.IntRange(1, 12).Draw(t, "failat")
+		c.FailKind = rapid.IntRange(0, 2).Draw(t, "failkind")
+	}
+	if rapid.IntRange(0, 4).Draw(t, "prev?") == 0 {
+		p := &c18Prev{Data: drawFrameData(t, rapid.SampledFrom([]int{0, 10, 70000, 200000}).Draw(t, "prevn")),
+			Sizes: rapid.SliceOfN(rapid.SampledFrom([]int{1, 5, 7, 8, 100, 4096, 70000}), 1, 3).Draw(t, "prevsizes"), Calls: rapid.IntRange(0, 6).Draw(t, "prevcalls")}
+		if rapid.Bool().Draw(t, "prevfail") {
+			p.FailAt = rapid.IntRange(1, 4).Draw(t, "prevfailat")
+		}
+		c.Prev = p
 	}
 	return c
 }
@@ -196,6 +248,6 @@ const c18Rule = "rapid-drawn (input x options x Read size sequence x source beha
 func TestC18(t *testing.T) {
 	rec := stat.For("C18")
 	rec.SetRule(c18Rule)
-	rec.Require("nontrivial", "sizes/below-header-size", "source-error-passed-through", "source/fragmented", "input/empty", "input/k*bs", "input/bs")
+	rec.Require("nontrivial", "reuse/reset-after-a-source-failure", "source-error-wrapping-EOF-passed-through", "sizes/below-header-size", "source-error-passed-through", "source/fragmented", "input/empty", "input/k*bs", "input/bs")
 	checkProp(t, "C18", "C18/read", pick(6000, 150000), drawC18, runC18)
 }
